@@ -23,15 +23,31 @@ async def exec_label(run: StoreRun, trace: Trace, label, hooks=()) -> tuple:
     connections it caused.  hooks: callables(run, trace, step_index, label,
     responses, raw) -> None, called after every recorded step (monitors)."""
     idle_before = {s: run.selected(s) for s in run.idle}
+    own_before = run.selected(label[1]) if label[0] == 'cmd' and label[2][0] == 'idle' else None
     label, responses, raw = await run.do(label)
     for r in responses:
         if r[0] in ('other', 'bye'):
             trace.problems.append({'kind': 'unparsed_or_bye', 'label': repr(label),
                                    'line': repr(r[1])})
-    trace.steps.append((label, responses, run.observe()))
-    trace.raws.append(raw)
-    for h in hooks:
-        h(run, trace, len(trace.steps) - 1, label, responses, raw)
+    if label[0] == 'cmd' and label[2][0] == 'idle' and responses[:1] == [('cont',)] and \
+            (len(responses) > 1 or run.selected(label[1]) is not own_before):
+        # IDLE answers `+ Idling.` and, when the mailbox has changed since the last
+        # command, reports that at once: recorded as the IDLE step followed by a wake-up
+        s = label[1]
+        trace.steps.append((label, responses[:1], run.observe(exclude=[s])))
+        trace.raws.append(raw)
+        for h in hooks:
+            h(run, trace, len(trace.steps) - 1, label, responses[:1], raw)
+        wl = ('wake', s)
+        trace.steps.append((wl, responses[1:], run.observe()))
+        trace.raws.append(b'')
+        for h in hooks:
+            h(run, trace, len(trace.steps) - 1, wl, responses[1:], b'')
+    else:
+        trace.steps.append((label, responses, run.observe()))
+        trace.raws.append(raw)
+        for h in hooks:
+            h(run, trace, len(trace.steps) - 1, label, responses, raw)
     # wake-ups: let the loop run; an idler that forked has a new _selected object
     if run.idle:
         await run.settle()
